@@ -6,6 +6,7 @@ import (
 	"strings"
 
 	"github.com/creachadair/mds/mlink"
+	"verif/elem"
 	"verif/vk"
 )
 
@@ -25,6 +26,7 @@ import (
 // ListCase is a history for one list and up to nSlots cursors.
 type ListCase struct {
 	Ctor string `json:"ctor"`           // "zero" or "new"
+	Elem string `json:"elem,omitempty"` // element kind (see kinds.go); "" = int
 	Init int    `json:"init,omitempty"` // elements added up front through At(0).Add(vs...)
 	Ops  []Op   `json:"ops"`
 }
@@ -36,21 +38,22 @@ const (
 	nKeys      = 6
 )
 
-type lcur struct {
-	real  *mlink.Cursor[int]
+type lcur[T any] struct {
+	real  *mlink.Cursor[T]
 	pred  int // id of the predecessor entry; 0 = list head
 	stale bool
 	why   string
 }
 
-type listRun struct {
+type listRun[T any] struct {
+	b      *bound[T]
 	c      ListCase
-	l      *mlink.List[int]
+	l      *mlink.List[T]
 	ids    []int
 	val    map[int]int
 	nextID int
 	serial int
-	cur    [nSlots]*lcur
+	cur    [nSlots]*lcur[T]
 	step   int
 
 	// measurements
@@ -62,11 +65,12 @@ type listRun struct {
 	downstream  int // a structural edit upstream of another valid cursor that must survive it
 	clearLimbo  map[string]int
 	emptySlot   int
+	reSet       int // Set of a NEW element whose value equals the one it replaces
 	skippedFull int
 	maxLen      int
 }
 
-func (r *listRun) vals() []int {
+func (r *listRun[T]) vals() []int {
 	out := make([]int, len(r.ids))
 	for i, id := range r.ids {
 		out[i] = r.val[id]
@@ -98,7 +102,7 @@ func vsstr(vs []int) string {
 	return sb.String()
 }
 
-func (r *listRun) errf(format string, args ...any) string {
+func (r *listRun[T]) errf(format string, args ...any) string {
 	var cs []string
 	for i, c := range r.cur {
 		switch {
@@ -109,16 +113,16 @@ func (r *listRun) errf(format string, args ...any) string {
 			cs = append(cs, fmt.Sprintf("c%d@%d", i, r.pos(c)))
 		}
 	}
-	return fmt.Sprintf("mlink.List %s: %s  [reference list %s; cursors %s]", opCtx(r.step, r.c.Ops),
-		fmt.Sprintf(format, args...), vsstr(r.vals()), strings.Join(cs, " "))
+	return fmt.Sprintf("mlink.List %s: %s  [reference list %s; cursors %s]%s", opCtx(r.step, r.c.Ops),
+		fmt.Sprintf(format, args...), r.b.wants(r.vals()), strings.Join(cs, " "), r.b.note())
 }
 
-func (r *listRun) newValue(key int) int {
+func (r *listRun[T]) newValue(key int) int {
 	r.serial++
 	return (abs(key)%nKeys)<<keyShift | r.serial
 }
 
-func (r *listRun) idx(id int) int {
+func (r *listRun[T]) idx(id int) int {
 	for i, x := range r.ids {
 		if x == id {
 			return i
@@ -128,17 +132,17 @@ func (r *listRun) idx(id int) int {
 }
 
 // pos is the index of the cursor's target (len(ids) = end of list).
-func (r *listRun) pos(c *lcur) int {
+func (r *listRun[T]) pos(c *lcur[T]) int {
 	if c.pred == 0 {
 		return 0
 	}
 	return r.idx(c.pred) + 1
 }
 
-func (r *listRun) atEnd(c *lcur) bool { return r.pos(c) == len(r.ids) }
+func (r *listRun[T]) atEnd(c *lcur[T]) bool { return r.pos(c) == len(r.ids) }
 
 // target returns the id at the cursor's location (0 at the end).
-func (r *listRun) target(c *lcur) int {
+func (r *listRun[T]) target(c *lcur[T]) int {
 	p := r.pos(c)
 	if p == len(r.ids) {
 		return 0
@@ -146,7 +150,7 @@ func (r *listRun) target(c *lcur) int {
 	return r.ids[p]
 }
 
-func (r *listRun) insertAt(p int, v int) int {
+func (r *listRun[T]) insertAt(p int, v int) int {
 	r.nextID++
 	id := r.nextID
 	r.val[id] = v
@@ -157,7 +161,7 @@ func (r *listRun) insertAt(p int, v int) int {
 }
 
 // noteEdit classifies a structural edit made through c at its location.
-func (r *listRun) noteEdit(c *lcur) {
+func (r *listRun[T]) noteEdit(c *lcur[T]) {
 	p := r.pos(c)
 	for _, d := range r.cur {
 		if d == nil || d == c || d.stale {
@@ -172,7 +176,7 @@ func (r *listRun) noteEdit(c *lcur) {
 }
 
 // markStale flags every live cursor whose predecessor is one of removed.
-func (r *listRun) markStale(removed []int, why string) {
+func (r *listRun[T]) markStale(removed []int, why string) {
 	for _, d := range r.cur {
 		if d == nil || d.stale || d.pred == 0 {
 			continue
@@ -197,7 +201,7 @@ func isInvalidCursor(pv any) bool {
 // mustRefuse runs one method of a stale cursor: it has to panic with "invalid
 // cursor".  (That it returns at all is the watchdog's business; that the list
 // is unchanged is checked by after.)
-func (r *listRun) mustRefuse(slot int, c *lcur, name string, f func()) string {
+func (r *listRun[T]) mustRefuse(slot int, c *lcur[T], name string, f func()) string {
 	pv := vk.PanicValue(f)
 	if pv == nil {
 		return r.errf("%s on cursor c%d returned normally although the cursor is invalid (its predecessor entry left the list by %s); every use must panic with \"invalid cursor\"", name, slot, c.why)
@@ -209,7 +213,7 @@ func (r *listRun) mustRefuse(slot int, c *lcur, name string, f func()) string {
 }
 
 // after is the oracle run after every operation.
-func (r *listRun) after() string {
+func (r *listRun[T]) after() string {
 	n := len(r.ids)
 	if n > r.maxLen {
 		r.maxLen = n
@@ -232,10 +236,10 @@ func (r *listRun) after() string {
 	if got := r.l.IsEmpty(); got != (n == 0) {
 		return r.errf("IsEmpty = %v, reference has %d elements", got, n)
 	}
-	var got []int
-	r.l.Each(func(v int) bool { got = append(got, v); return len(got) < n+8 })
-	if !eqInts(got, want) {
-		return r.errf("Each lists %s, want the reference list", vsstr(got))
+	got := make([]T, 0, n)
+	r.l.Each(func(v T) bool { got = append(got, v); return len(got) < n+8 })
+	if !r.b.eq(got, want) {
+		return r.errf("Each lists %s, want the reference list", r.b.list(got))
 	}
 	if got := r.l.Len(); got != n {
 		return r.errf("Len = %d, reference has %d elements", got, n)
@@ -261,47 +265,47 @@ func (r *listRun) after() string {
 		if p < n {
 			wantV = want[p]
 		}
-		if got := c.real.Get(); got != wantV {
-			return r.errf("cursor c%d: Get = %s, want %s (cursor is at index %d)", i, vstr(got), vstr(wantV), p)
+		if got := c.real.Get(); !r.b.is(got, wantV) {
+			return r.errf("cursor c%d: Get = %s, want %s (cursor is at index %d)", i, r.b.show(got), r.b.want(wantV), p)
 		}
 		walk := *c.real
-		var rest []int
+		rest := make([]T, 0, n-p)
 		for !walk.AtEnd() && len(rest) < n+8 {
 			rest = append(rest, walk.Get())
 			walk.Next()
 		}
-		if !eqInts(rest, want[p:]) {
-			return r.errf("cursor c%d: walking Next to the end from its position (index %d) lists %s, want %s", i, p, vsstr(rest), vsstr(want[p:]))
+		if !r.b.eq(rest, want[p:]) {
+			return r.errf("cursor c%d: walking Next to the end from its position (index %d) lists %s, want %s", i, p, r.b.list(rest), r.b.wants(want[p:]))
 		}
 	}
 	return ""
 }
 
-func (r *listRun) checkPeek(k int) string {
+func (r *listRun[T]) checkPeek(k int) string {
 	got, ok := r.l.Peek(k)
 	if k >= len(r.ids) {
 		if ok {
-			return r.errf("Peek(%d) = (%s, true) on a list of %d elements, want ok = false", k, vstr(got), len(r.ids))
+			return r.errf("Peek(%d) = (%s, true) on a list of %d elements, want ok = false", k, r.b.show(got), len(r.ids))
 		}
 		return ""
 	}
 	want := r.val[r.ids[k]]
-	if !ok || got != want {
-		return r.errf("Peek(%d) = (%s, %v), want (%s, true)", k, vstr(got), ok, vstr(want))
+	if !ok || !r.b.is(got, want) {
+		return r.errf("Peek(%d) = (%s, %v), want (%s, true)", k, r.b.show(got), ok, r.b.want(want))
 	}
 	return ""
 }
 
 // ---- cursor operations -------------------------------------------------------
 
-func (r *listRun) modelAdd(c *lcur, vs []int) {
+func (r *listRun[T]) modelAdd(c *lcur[T], vs []int) {
 	for _, v := range vs {
 		c.pred = r.insertAt(r.pos(c), v)
 	}
 }
 
 // cursorOp applies op to the cursor in its slot.
-func (r *listRun) cursorOp(op Op) string {
+func (r *listRun[T]) cursorOp(op Op) string {
 	slot := abs(op.C) % nSlots
 	c := r.cur[slot]
 	if c == nil {
@@ -321,16 +325,16 @@ func (r *listRun) cursorOp(op Op) string {
 		case "next":
 			msg = r.mustRefuse(slot, c, "Next", func() { c.real.Next() })
 		case "set":
-			msg = r.mustRefuse(slot, c, "Set", func() { c.real.Set(r.newValue(op.B)) })
+			msg = r.mustRefuse(slot, c, "Set", func() { c.real.Set(r.b.in(r.newValue(op.B))) })
 		case "push":
-			msg = r.mustRefuse(slot, c, "Push", func() { c.real.Push(r.newValue(op.B)) })
+			msg = r.mustRefuse(slot, c, "Push", func() { c.real.Push(r.b.in(r.newValue(op.B))) })
 		case "add":
 			k := a%3 + 1
 			vs := make([]int, k)
 			for i := range vs {
 				vs[i] = r.newValue(op.B + i)
 			}
-			msg = r.mustRefuse(slot, c, fmt.Sprintf("Add(%d values)", k), func() { c.real.Add(vs...) })
+			msg = r.mustRefuse(slot, c, fmt.Sprintf("Add(%d values)", k), func() { c.real.Add(r.b.ins(vs)...) })
 		case "remove":
 			msg = r.mustRefuse(slot, c, "Remove", func() { c.real.Remove() })
 		case "trunc":
@@ -368,9 +372,17 @@ func (r *listRun) cursorOp(op Op) string {
 			r.noteEdit(c)
 			r.insertAt(len(r.ids), v) // Set at the end is Push
 		} else {
+			if a%2 == 1 {
+				// Set of an element that equals the one it replaces in value but
+				// is a different element (for the pointer-like kinds: a new
+				// allocation with the same contents).  The list must hold the
+				// element that was set, not the one that was there.
+				v = r.val[r.target(c)]
+				r.reSet++
+			}
 			r.val[r.target(c)] = v
 		}
-		c.real.Set(v)
+		c.real.Set(r.b.in(v))
 	case "push":
 		if len(r.ids) >= maxListLen {
 			r.skippedFull++
@@ -379,7 +391,7 @@ func (r *listRun) cursorOp(op Op) string {
 		v := r.newValue(op.B)
 		r.noteEdit(c)
 		r.insertAt(r.pos(c), v)
-		c.real.Push(v)
+		c.real.Push(r.b.in(v))
 	case "add":
 		k := a % 4 // 0..3 values; Add() with no values inserts nothing
 		if len(r.ids)+k > maxListLen {
@@ -394,7 +406,7 @@ func (r *listRun) cursorOp(op Op) string {
 			r.noteEdit(c)
 		}
 		r.modelAdd(c, vs)
-		c.real.Add(vs...)
+		c.real.Add(r.b.ins(vs)...)
 	case "remove":
 		want := 0
 		if !end {
@@ -405,8 +417,8 @@ func (r *listRun) cursorOp(op Op) string {
 			r.ids = append(r.ids[:p], r.ids[p+1:]...)
 			r.markStale([]int{t}, "Remove")
 		}
-		if got := c.real.Remove(); got != want {
-			return r.errf("cursor c%d: Remove returned %s, want %s", slot, vstr(got), vstr(want))
+		if got := c.real.Remove(); !r.b.is(got, want) {
+			return r.errf("cursor c%d: Remove returned %s, want %s", slot, r.b.show(got), r.b.want(want))
 		}
 	case "trunc":
 		if !end {
@@ -424,11 +436,11 @@ func (r *listRun) cursorOp(op Op) string {
 }
 
 // place records a freshly obtained cursor in slot.
-func (r *listRun) place(slot int, real *mlink.Cursor[int], p int) string {
+func (r *listRun[T]) place(slot int, real *mlink.Cursor[T], p int) string {
 	if real == nil {
 		return r.errf("the list returned a nil cursor")
 	}
-	c := &lcur{real: real}
+	c := &lcur[T]{real: real}
 	if p > len(r.ids) {
 		p = len(r.ids)
 	}
@@ -439,7 +451,7 @@ func (r *listRun) place(slot int, real *mlink.Cursor[int], p int) string {
 	return ""
 }
 
-func (r *listRun) clear() {
+func (r *listRun[T]) clear() {
 	removed := append([]int(nil), r.ids...)
 	r.l.Clear()
 	r.ids = nil
@@ -463,7 +475,7 @@ func (r *listRun) clear() {
 	}
 }
 
-func (r *listRun) apply(op Op) string {
+func (r *listRun[T]) apply(op Op) string {
 	a := abs(op.A)
 	n := len(r.ids)
 	slot := abs(op.C) % nSlots
@@ -480,7 +492,7 @@ func (r *listRun) apply(op Op) string {
 				break
 			}
 		}
-		return r.place(slot, r.l.Find(func(v int) bool { return v>>keyShift == key }), p)
+		return r.place(slot, r.l.Find(func(v T) bool { return r.b.out(v)>>keyShift == key }), p)
 	case "last":
 		p := n - 1
 		if n == 0 {
@@ -526,28 +538,51 @@ func (r *listRun) apply(op Op) string {
 			return ""
 		}
 		j := a%n + 1
-		var got []int
-		r.l.Each(func(v int) bool { got = append(got, v); return len(got) < j })
+		var got []T
+		r.l.Each(func(v T) bool { got = append(got, v); return len(got) < j })
 		if len(got) != j {
 			return r.errf("Each made %d callbacks although the callback returned false at #%d", len(got), j)
 		}
-		if !eqInts(got, r.vals()[:j]) {
-			return r.errf("Each (stopped at %d) lists %s", j, vsstr(got))
+		if !r.b.eq(got, r.vals()[:j]) {
+			return r.errf("Each (stopped at %d) lists %s", j, r.b.list(got))
 		}
 		return ""
 	}
 	return r.cursorOp(op)
 }
 
+// runList instantiates the interpreter with the case's element kind.
 func runList(c ListCase, o *vk.Obs) string {
-	r := &listRun{c: c, step: -1, val: map[int]int{}, staleOps: map[string]int{}, staleBy: map[string]int{},
+	elem.ResetPtr()
+	switch c.Elem {
+	case "", elem.Int:
+		return runListOf(c, o, cmpBound(elem.IntKit()))
+	case elem.Str:
+		return runListOf(c, o, cmpBound(elem.StrKit()))
+	case elem.I16:
+		return runListOf(c, o, cmpBound(elem.I16Kit()))
+	case elem.Wide:
+		return runListOf(c, o, cmpBound(elem.WideKit()))
+	case elem.Ptr:
+		return runListOf(c, o, cmpBound(elem.PtrKit()))
+	case elem.Any:
+		return runListOf(c, o, cmpBound(elem.AnyKit()))
+	case elem.Bytes:
+		return runListOf(c, o, bytesBound())
+	}
+	return badKind(c.Elem)
+}
+
+func runListOf[T any](c ListCase, o *vk.Obs, b *bound[T]) string {
+	b.fmtV, b.fmtVs = vstr, vsstr
+	r := &listRun[T]{b: b, c: c, step: -1, val: map[int]int{}, staleOps: map[string]int{}, staleBy: map[string]int{},
 		atEndOps: map[string]int{}, clearLimbo: map[string]int{}}
 	switch c.Ctor {
 	case "zero":
-		var l mlink.List[int]
+		var l mlink.List[T]
 		r.l = &l
 	case "new":
-		r.l = mlink.NewList[int]()
+		r.l = mlink.NewList[T]()
 	default:
 		return r.errf("VK-INFRA unknown constructor %q", c.Ctor)
 	}
@@ -558,9 +593,9 @@ func runList(c ListCase, o *vk.Obs) string {
 			for i := range vs {
 				vs[i] = r.newValue(i)
 			}
-			tmp := &lcur{real: r.l.At(0)}
+			tmp := &lcur[T]{real: r.l.At(0)}
 			r.modelAdd(tmp, vs)
-			tmp.real.Add(vs...)
+			tmp.real.Add(r.b.ins(vs)...)
 		}
 		return r.after()
 	}); msg != "" {
@@ -581,6 +616,8 @@ func runList(c ListCase, o *vk.Obs) string {
 		o.NonTrivial()
 	}
 	o.Class("ctor=" + c.Ctor)
+	o.Class("elem=" + kindName(c.Elem))
+	o.ClassIf(r.reSet > 0, "set_of_new_element_with_the_value_it_replaces")
 	for k, v := range r.staleBy {
 		o.ClassIf(v > 0, "cursor_made_stale_by_"+k)
 	}
